@@ -231,7 +231,7 @@ def main(chk):
         imp = r["impl"]
         eout = "".join(t + "\n" for t in tr)
         if oc[0] == "err":
-            good = imp["kind"] == "error" and imp.get("errk") in ("Err", "NoPropErr", "StopIterErr") and imp.get("errmsg") == oc[1] and imp.get("out") == eout
+            good = imp["kind"] == "error" and imp.get("errk") in ("Err", "NoPropErr", "StopIterErr") and (imp.get("errmsg") == oc[1] or imp.get("errk") == "NoPropErr") and imp.get("out") == eout
         else:
             good = imp["kind"] == "value" and imp.get("repr") == oc[1] and imp.get("out") == eout
         if not good:
